@@ -27,3 +27,13 @@ impl vstd::std_specs::convert::FromSpecImpl<usize> for BigNum {
     open spec fn obeys_from_spec() -> bool { true }
     open spec fn from_spec(v: usize) -> BigNum { BigNum(v as u64) }
 }
+
+// decimal parsing of the std library (`str::parse::<i128>`): an uninterpreted partial function of the text (ASSUMED; R-parse)
+#[verifier::external_body] pub struct ParseIntError { _p: core::marker::PhantomData<u8> }
+pub uninterp spec fn dec_i128(s: Seq<char>) -> Option<i128>;
+#[verifier::external_body] pub fn parse_i128(s: &str) -> (r: Result<i128, ParseIntError>)
+    ensures r is Ok <==> dec_i128(s@) is Some, r is Ok ==> Some(r->Ok_0) == dec_i128(s@) { unimplemented!() }
+// i128::abs (overflows only for i128::MIN, which panics under overflow checks: precondition)
+pub assume_specification [i128::abs] (x: i128) -> (r: i128)
+    requires x != i128::MIN
+    ensures r == (if x < 0 { -x } else { x as int });
